@@ -48,6 +48,21 @@ func (P *Prog) EnumSwitches(fn *ssa.Function) []*enumSwitch {
 	// an if / else-if chain that compares one expression of an enum type with constants is the same decision written
 	// differently: it is read as a switch with the final else as default
 	inChain := map[*ast.IfStmt]bool{}
+	boolDefs := map[types.Object]ast.Expr{}
+	ast.Inspect(body, func(n ast.Node) bool {
+		if as, ok := n.(*ast.AssignStmt); ok && as.Tok == token.DEFINE && len(as.Lhs) == len(as.Rhs) {
+			for k, l := range as.Lhs {
+				if id, ok := l.(*ast.Ident); ok {
+					if obj := info.Defs[id]; obj != nil {
+						if b, ok := obj.Type().Underlying().(*types.Basic); ok && b.Kind() == types.Bool {
+							boolDefs[obj] = as.Rhs[k]
+						}
+					}
+				}
+			}
+		}
+		return true
+	})
 	restAfter := map[*ast.IfStmt][]ast.Stmt{}
 	ast.Inspect(body, func(n ast.Node) bool {
 		var list []ast.Stmt
@@ -78,6 +93,12 @@ func (P *Prog) EnumSwitches(fn *ssa.Function) []*enumSwitch {
 			switch x := e.(type) {
 			case *ast.ParenExpr:
 				return eat(x.X)
+			case *ast.Ident:
+				// a boolean local defined once by a comparison: `isInvalid := r == A || r == B; if isInvalid {`
+				if def, ok := boolDefs[info.Uses[x]]; ok {
+					return eat(def)
+				}
+				return false
 			case *ast.BinaryExpr:
 				if x.Op == token.LOR {
 					return eat(x.X) && eat(x.Y)
